@@ -7,6 +7,8 @@ from vf import gen, e1, target, diff
 from vf.runner import Acc
 from vf.props import e1prop
 from vf.ref.machine import Machine, Abort, Unpred, Skip, M32
+from vf.ref import step  # noqa: F401
+from vf.ref.core import REG
 
 from armulator.armv6.arm_exceptions import DataAbortException
 
@@ -170,21 +172,67 @@ def shard_fetch(seed, count):
     return acc
 
 
-# instruction-level: loads/stores at every alignment under every policy are C02's plan with E random; reuse it with a different focus
+# instruction-level: every load/store row (single, dual, exclusive, unprivileged, multiple) with the base aimed at every alignment under every
+# (arch, SCTLR.A, SCTLR.U, CPSR.E) policy: the value that reaches the register (rotated legacy LDR, byte-reversed, sign-extended), the bytes
+# written and the alignment fault are the instruction's, not the accessor's
+LS_ROWS = sorted(n for n, (d, x) in REG.items() if x.__module__ in ('vf.ref.sem_ls', 'vf.ref.sem_lsm'))
+
+
+def aim_unaligned(rng, row, w, case):
+    f = row.extract(w)
+    st = case['state']
+    mode = gen.MODE_NAME[st['cpsr'] & 31]
+    for fld in ('n', 'm'):
+        if fld in f and isinstance(f[fld], int) and f[fld] <= 14:
+            if fld == 'n':
+                p = gen.DATA[0] + 0x40 + rng.randrange(0, 0x80)
+                if rng.random() < 0.25:
+                    p &= ~3
+            else:
+                if f.get('n') == f[fld]:
+                    continue
+                p = rng.choice((0, 1, 2, 3, 5, 6, 7, 9, 0x12, 0xFFFFFFFF, 0xFFFFFFFD, 0xFFFFFFF2))
+            st[gen.bank_key(f[fld], mode)] = p & 0xFFFFFFFF
+    if 'n' not in f:            # PUSH / POP: the stack pointer
+        st[gen.bank_key(13, mode)] = gen.DATA[0] + 0x40 + rng.randrange(0, 0x80)
+
+
+def classify_ls(res, case):
+    out = []
+    if res.status == 'abort':
+        out.append('abort:' + str(res.detail))
+    if res.status == 'ok' and res.cond_passed:
+        out.append('E%d' % ((case['state']['cpsr'] >> 9) & 1))
+        out.append('A%dU%d' % ((case['state']['sctlr'] >> 1) & 1, (case['state']['sctlr'] >> 22) & 1))
+    return out
+
+
+PLAN = e1prop.Plan('C13', LS_ROWS, cfgs=('v6', 'v6', 'v7', 'v5', 'v6-nosec'), classify=classify_ls,
+                   case_kw=lambda rng, row: {'mpu': False, 'mmu': False, 'e': rng.getrandbits(1)}, tweak_case=aim_unaligned,
+                   hooked=(False, False, True))
+
+
 def run(ctx):
     ctx.rule = ('Direct calls of mem_a_get/set, mem_u_get/set, mem_u_unpriv_get/set for the complete matrix size {1,2,4,8} x address offset 0..7 x base '
                 '{mid-device, just below a device end, just below 2^32 (wrap to 0), 0} x CPSR.E x SCTLR.A x SCTLR.U (where the architecture version has '
                 'the bit) x arch {5,6,7} x privileged/User (+ Hyp mode with HSCTLR.A on the virtualization config) x read/write (and, for the mid-device base, MPU off / privileged-only region / user-read-only region), with random data and '
                 'random surrounding memory in every cell (N repetitions). Oracle: vf/ref/machine.py MemA/MemU (alignment fault / legacy align-down / '
                 'byte-by-byte, BigEndianReverse, exact byte footprint via full memory comparison, DFSR/DFAR on faults) + store-then-load round trip. '
-                'Plus: single instructions executed with CPSR.E=0 and 1 must decode identically (little-endian fetch). Non-trivial: unaligned, or E=1, or '
+                'Plus: single instructions executed with CPSR.E=0 and 1 must decode identically (little-endian fetch). Plus: every load/store/load-store-multiple encoding row executed by emulate_cycle() with the base register at alignment 0..3 (75 % unaligned), CPSR.E random, SCTLR.A/U random per architecture version, compared with the reference interpreter on the complete state (rotated legacy LDR result, byte-reversed data, alignment aborts). Non-trivial: unaligned, or E=1, or '
                 'size 8, or next to a device end / 2^32; distinct = (cell, data).')
     ctx.technique = 'exhaustive enumeration of the access-policy matrix with random data, differential against a reference memory model'
     ctx.assumptions = ['vf/ref/machine.py MemA/MemU is a faithful reading of DDI 0406C B2.4', 'accesses that overhang the end of a device are excluded (C16 covers them)']
     np_ = 16
     tasks = [(shard_matrix, (i, np_, ctx.shard_seed(i), ctx.n(2, 24))) for i in range(np_)]
     tasks += [(shard_fetch, (ctx.shard_seed(100 + i), ctx.n(800, 15000))) for i in range(4)]
+    tasks += [(e1prop.shard, ('vf.props.c13:PLAN', ctx.shard_seed(200 + i), ctx.n(300, 6000))) for i in range(16)]
     ctx.pmap(_dispatch, tasks)
+    for b, v in list(ctx.acc.viol.items()):
+        if isinstance(v['case'], dict) and 'poke' in v['case']:
+            try:
+                v['case'] = e1prop.minimise(PLAN, v['case'], b)
+            except Exception:
+                pass
     ctx.acc.exhaustive = True
     ctx.acc.extra['exhaustive_part'] = 'configuration matrix cells (data and surrounding memory sampled)'
 
@@ -203,5 +251,7 @@ def replay(case, bucket=None):
         for s in range(20):
             cell(acc, random.Random(s), cfgov, a, u, ha, size, off, bn, base, big, acc_name, mode, iswrite, mpu)
         return sorted(acc.viol)
-    r = diff.run(case)
-    return [e1prop.sig(r.diffs)] if r.diffs else []
+    if bucket and bucket.startswith('C13:fetch'):
+        r = diff.run(case)
+        return [e1prop.sig(r.diffs)] if r.diffs else []
+    return e1prop.replay(PLAN, case)
